@@ -89,6 +89,8 @@ func sType(shape []sField) reflect.Type {
 			sf.Type = reflect.TypeOf([2]*int{})
 		case "pkmap":
 			sf.Type = reflect.TypeOf(map[*int]int{})
+		case "mmap":
+			sf.Type = reflect.TypeOf(map[string]map[string]int{})
 		case "dash":
 			sf.Type = tInt
 			sf.Tag = `dials:"-"`
@@ -216,6 +218,9 @@ func sLeaf(kind string, id, idx int) reflect.Value {
 	case "pkmap":
 		v := n
 		return reflect.ValueOf(map[*int]int{&v: n})
+	case "mmap": // two entries of the outer map hold the very same inner map
+		inner := map[string]int{fmt.Sprintf("k%d", n): n}
+		return reflect.ValueOf(map[string]map[string]int{"a": inner, "b": inner, "c": {"x": n + 1}})
 	}
 	panic("harness: no leaf value for " + kind)
 }
